@@ -41,7 +41,13 @@ package governance
 //@   ensures err != nil ==> result0 == nil
 
 // the validators compare a candidate option set with the stored one and with fixed ranges: they read, they do not write
-//@ assume func (*Store).ValidateEvidence
+// ValidateEvidence is VERIFIED for crash-freedom (C18): it is reached from CheckTx/DeliverTx of a configuration proposal
+// with an attacker-chosen value in the candidate option set, and it divides by expressions of the candidate. The decimals it
+// divides by cannot be proposed (no update function sets them): they are the stored ones, at least 100 since genesis.
+//@ func (*Store).ValidateEvidence
+//@   safety C18
+//@   requires st != nil && opt != nil                                                                          // C18.validator-args
+//@   assumes opt.PenaltyBaseDecimals >= 100 && opt.ValidatorVoteDecimals >= 100                                // A-GENESIS-DECIMALS
 //@   modifies nothing
 //@ assume func (*Store).ValidateFee
 //@   modifies nothing
